@@ -1,7 +1,6 @@
 """C12 Push combinators deliver the right items and honour the push protocol (engine Push)."""
 from tools import push, vlib
 
-KEY_REFIN = "multi-downstream/poll_finalize-after-Done"
 
 
 class C12(vlib.Spec):
@@ -11,9 +10,7 @@ class C12(vlib.Spec):
                 "C12_filter_map", "C12_filter_map_terminates",
                 "C12_flat_map", "C12_flatten", "C12_flat_map_terminates", "C12_flatten_terminates",
                 "C12_inspect", "C12_unzip_fixed", "C12_fanout_fixed", "C12_fanout_fixed_terminates",
-                "C12_unzip_fixed_terminates", "C12_demux_fixed", "C12_demux_partial",
-                "C12_demux_strict_refuted", "C12_unzip_partial", "C12_unzip_terminates", "C12_fanout_partial", "C12_fanout_terminates",
-                "C12_fanout_strict_refuted", "C12_unzip_strict_refuted"]
+                "C12_unzip_fixed_terminates", "C12_demux_fixed", "C12_demux_fixed_terminates"]
     crate, group, binary = "h_push", "light", "h_push"
     shrink_rounds = 20
     level = "proof"
@@ -41,14 +38,6 @@ class C12(vlib.Spec):
 
     def shrink(self, case):
         return push.shrink_push(case)
-
-    def finding_key(self, case, res):
-        # the class: a combinator with several downstreams polls poll_finalize again on a downstream
-        # that already answered Done -- and nothing else is wrong with the histories
-        if case["comb"] in ("fanout", "unzip", "demux") and "logs" in res \
-                and push.weak_holds(case, res) and any(push.log_refinalized(l) for l in res["logs"]):
-            return KEY_REFIN
-        return None
 
     def nontrivial(self, case, res):
         logs = res.get("logs", [])
